@@ -23,6 +23,7 @@ THOROUGH_CONFIGS = ["nodefault"]
 
 
 def run(ck, ctx):
+    C.adapter_census(ck, ctx, "single-write", ("db::",))
     DB.single_write(ck, ctx)
     DB.sole_writer(ck, ctx)
     DB.torn_read(ck, ctx)
